@@ -122,3 +122,54 @@ def us_of(x):
 
 def td_of(x):
     return vtime.td_us(x)
+
+
+# ----------------------------------------------------------------------------------------
+# Worker-level scaffolding
+
+
+class World:
+    """A connection on in-memory brokers plus observation hooks."""
+
+    def __init__(self, results=False, args_bucket=False):
+        from repid import Connection, InMemoryBucketBroker, InMemoryMessageBroker
+        self.broker = InMemoryMessageBroker()
+        self.ab = InMemoryBucketBroker() if args_bucket else None
+        self.rb = InMemoryBucketBroker(use_result_bucket=True) if results else None
+        self.conn = Connection(self.broker, self.ab, self.rb)
+        self.rec = None
+
+    async def open(self, queues=("default",), record=True):
+        await self.conn.connect()
+        for q in queues:
+            await self.broker.queue_declare(q)
+        if record:
+            self.rec = Recorder(self.broker)
+        return self
+
+    def places(self, queue="default"):
+        return mem_places(self.broker, queue)
+
+
+def observe_consumers(broker):
+    """Wrap CONSUMER_CLASS so that pause/unpause/consume returns are logged."""
+    log = []
+    base = broker.CONSUMER_CLASS
+
+    class Observed(base):
+        async def pause(self):
+            log.append(("pause", self.queue_name))
+            return await super().pause()
+
+        async def unpause(self):
+            log.append(("unpause", self.queue_name))
+            return await super().unpause()
+
+        async def consume(self):
+            r = await super().consume()
+            log.append(("deliver", r[0].id_, self.queue_name))
+            return r
+
+    Observed.__name__ = base.__name__
+    broker.CONSUMER_CLASS = Observed
+    return log
